@@ -15,8 +15,13 @@ import sk                                              # noqa: E402  (fake endpo
 from txtorcon import socks                             # noqa: E402
 
 
-def vector(req, kind, host, port):
-    """run one request through the public entry point and record what was written"""
+SELECT = {"ok": [b"\x05\x00"], "split": [b"\x05", b"\x00"], "m2": [b"\x05\x02"], "m2split": [b"\x05", b"\x02"],
+          "none": [b"\x05\xff"], "badver": [b"\x04\x00"], "m1": [b"\x05\x01"]}
+
+
+def vector(req, kind, host, port, sel="ok"):
+    """run one request through the public entry point and record what was written: before the server's
+    method selection (first), after a partial selection message (mid), after the whole of it (second)"""
     ep = sk.FakeProxyEndpoint()
     fired = []
     err = False
@@ -32,10 +37,15 @@ def vector(req, kind, host, port):
         err = True
     first = b""
     second = b""
+    mid = b""
     if ep.proto is not None:
         first = ep.tr.value()
+        chunks = SELECT[sel]
         try:
-            ep.proto.dataReceived(b"\x05\x00")
+            for i, c in enumerate(chunks):
+                ep.proto.dataReceived(c)
+                if i < len(chunks) - 1:
+                    mid = ep.tr.value()[len(first):]
         except BaseException:
             err = True
             ep.proto.connectionLost(failure.Failure(error.ConnectionLost("after exception")))
@@ -47,4 +57,4 @@ def vector(req, kind, host, port):
     if kind in ("v4", "v6"):
         addr = ipaddress.ip_address(host).packed
     return dict(req=req, kind=kind, name=list(name), addr=list(addr), port=port if req == "CONNECT" else 0,
-                first=list(first), second=list(second), err=err, host=host)
+                first=list(first), mid=list(mid), second=list(second), err=err, host=host, sel=sel)
